@@ -183,6 +183,7 @@ package keeper
 // stake, and (when no completion time is set yet) completes at block time + unstaking time; no coins move
 //@ func (Keeper).ValidateApplicationBeginUnstaking
 //@   props C24,C12
+//@   modifies nothing
 //@   ensures [staked-not-jailed] result == nil ==> application.Status == 2 && !application.Jailed
 //@ func (Keeper).BeginUnstakingApplication
 //@   props C24,C20,C12
@@ -193,6 +194,7 @@ package keeper
 //@   ensures [no-coins-move] bankA2MN == old(bankA2MN) && bankSendN == old(bankSendN) && bankBurnN == old(bankBurnN)
 //@ func (Keeper).ValidateApplicationFinishUnstaking
 //@   props C24,C12
+//@   modifies nothing
 //@   ensures [unstaking-not-jailed] result == nil ==> application.Status == 1 && !application.Jailed
 
 // the mature queue is read from the queue prefix up to (and including) the key of the BLOCK time
